@@ -131,21 +131,24 @@ def GROUP(target, spec, scope):
         done = True
         try:
             for keyspec, valspec in spec.items():
-                if tree.get(keyspec, None) is STOP:
+                if tree.get((_spec_id, STOP, keyspec), None) is STOP:
                     continue
                 key = recurse(keyspec)
                 if key is SKIP:
                     done = False  # SKIP means we still want more vals
                     continue
                 if key is STOP:
-                    tree[keyspec] = STOP
+                    tree[(_spec_id, STOP, keyspec)] = STOP
                     continue
+                # (per level: two dict levels that are steps of one Pipe work on
+                # the same tree, and may well yield equal keys)
+                sub_id = (_spec_id, key)
                 if key not in acc:
-                    tree[key] = {}
-                scope[ACC_TREE] = tree[key]
+                    tree[sub_id] = {}
+                scope[ACC_TREE] = tree[sub_id]
                 result = recurse(valspec)
                 if result is STOP:
-                    tree[keyspec] = STOP
+                    tree[(_spec_id, STOP, keyspec)] = STOP
                     continue
                 done = False  # SKIP or returning a value means we still want more vals
                 if result is not SKIP:
